@@ -42,9 +42,11 @@
    gil_release / thread exit runs alone until it reaches idle, body or done): this is the instance
    whose complete graph is replayed on the real code. *)
 EXTENDS Naturals, Sequences, FiniteSets, TLC
-CONSTANTS Foreign, MaxCalls, MaxTs, NClear, Variant, Atomic
-VARIABLES pc, calls, gil, zlock, tss, tlsb, tlscan, ts, cn, zl, vt, vc, doomed, err, seen, pre, nclear, mpc
-vars == <<pc, calls, gil, zlock, tss, tlsb, tlscan, ts, cn, zl, vt, vc, doomed, err, seen, pre, nclear, mpc>>
+CONSTANTS Foreign, MaxCalls, MaxTs, NClear, Variant, Atomic,
+          Shapes   \* set of 10*threads+calls: each initial state picks one shape (lets one TLC run
+                   \* dump the graphs of several small instances); {} means 10*|Foreign|+MaxCalls
+VARIABLES pc, calls, gil, zlock, tss, tlsb, tlscan, ts, cn, zl, vt, vc, doomed, err, seen, pre, nclear, mpc, shape
+vars == <<pc, calls, gil, zlock, tss, tlsb, tlscan, ts, cn, zl, vt, vc, doomed, err, seen, pre, nclear, mpc, shape>>
 
 Main == 99
 Exec == Foreign \cup {Main}
@@ -68,12 +70,13 @@ Init == /\ pc = [f \in Foreign |-> "unborn"]
         /\ seen = [f \in Foreign |-> <<>>]
         /\ pre = [f \in Foreign |-> {}]
         /\ nclear = 0 /\ mpc = "m0"
+        /\ shape \in (IF Shapes = {} THEN {10 * Cardinality(Foreign) + MaxCalls} ELSE Shapes)
 
 Linked == {i \in TsIds : ts[i].st \in {"alive", "cleared"}}      \* in the interpreter's list
 Remove(s, x) == SelectSeq(s, LAMBDA y : y # x)
 Goto(f, l) == pc' = [pc EXCEPT ![f] = l]
 Fail(m) == /\ err' = m
-           /\ UNCHANGED <<pc, calls, gil, zlock, tss, tlsb, tlscan, ts, cn, zl, vt, vc, doomed, seen, pre, nclear, mpc>>
+           /\ UNCHANGED <<pc, calls, gil, zlock, tss, tlsb, tlscan, ts, cn, zl, vt, vc, doomed, seen, pre, nclear, shape, mpc>>
 \* tokens of exited threads still linked (ghost, for pre[f])
 ZombTok == {i \in Linked : pc[Owner(i)] = "done" /\ tss[Owner(i)] = i}
 
@@ -87,24 +90,24 @@ Can(f) == err = "" /\ MayRun(f)
 CanM == err = "" /\ MainMayRun
 CanP(p) == IF p = Main THEN CanM ELSE Can(p)
 
-Spawn(f) == /\ Can(f) /\ pc[f] = "unborn" /\ Goto(f, "idle")
+Spawn(f) == /\ Can(f) /\ pc[f] = "unborn" /\ f <= shape \div 10 /\ Goto(f, "idle")
             /\ pre' = [pre EXCEPT ![f] = ZombTok]
-            /\ UNCHANGED <<calls, gil, zlock, tss, tlsb, tlscan, ts, cn, zl, vt, vc, doomed, err, seen, nclear, mpc>>
+            /\ UNCHANGED <<calls, gil, zlock, tss, tlsb, tlscan, ts, cn, zl, vt, vc, doomed, err, seen, nclear, shape, mpc>>
 
 \* ------------------------------------------------------------------ gil_ensure
-Ge1(f) == /\ Can(f) /\ pc[f] = "idle" /\ calls[f] < MaxCalls /\ ~doomed[f]
+Ge1(f) == /\ Can(f) /\ pc[f] = "idle" /\ calls[f] < MaxCalls /\ calls[f] < shape % 10 /\ ~doomed[f]
           /\ Goto(f, IF tss[f] # 0 THEN "ge2" ELSE "ge5")
-          /\ UNCHANGED <<calls, gil, zlock, tss, tlsb, tlscan, ts, cn, zl, vt, vc, doomed, err, seen, pre, nclear, mpc>>
+          /\ UNCHANGED <<calls, gil, zlock, tss, tlsb, tlscan, ts, cn, zl, vt, vc, doomed, err, seen, pre, nclear, shape, mpc>>
 
 Ge2(f) == /\ Can(f) /\ pc[f] = "ge2"
           /\ IF ts[tss[f]].st # "alive" THEN Fail("gil_ensure: counter++ on a dead tstate")
              ELSE /\ ts' = [ts EXCEPT ![tss[f]].cnt = @ + 1] /\ Goto(f, "ge3")
-                  /\ UNCHANGED <<calls, gil, zlock, tss, tlsb, tlscan, cn, zl, vt, vc, doomed, err, seen, pre, nclear, mpc>>
+                  /\ UNCHANGED <<calls, gil, zlock, tss, tlsb, tlscan, cn, zl, vt, vc, doomed, err, seen, pre, nclear, shape, mpc>>
 
 Ge3(f) == /\ Can(f) /\ pc[f] = "ge3" /\ gil = 0
           /\ IF ts[tss[f]].st # "alive" THEN Fail("PyEval_RestoreThread on a dead tstate")
              ELSE /\ gil' = f /\ Goto(f, "body")
-                  /\ UNCHANGED <<calls, zlock, tss, tlsb, tlscan, ts, cn, zl, vt, vc, doomed, err, seen, pre, nclear, mpc>>
+                  /\ UNCHANGED <<calls, zlock, tss, tlsb, tlscan, ts, cn, zl, vt, vc, doomed, err, seen, pre, nclear, shape, mpc>>
 
 FreshTs(f) == {i \in TsIds : Owner(i) = f /\ ts[i].st = "free"}
 Ge5(f) == /\ Can(f) /\ pc[f] = "ge5" /\ FreshTs(f) # {}
@@ -112,27 +115,27 @@ Ge5(f) == /\ Can(f) /\ pc[f] = "ge5" /\ FreshTs(f) # {}
                /\ ts' = [ts EXCEPT ![i] = [st |-> "alive", cnt |-> 1, dict |-> 0, loc |-> <<>>]]
                /\ tss' = [tss EXCEPT ![f] = i]
           /\ Goto(f, "ge6")
-          /\ UNCHANGED <<calls, gil, zlock, tlsb, tlscan, cn, zl, vt, vc, doomed, err, seen, pre, nclear, mpc>>
+          /\ UNCHANGED <<calls, gil, zlock, tlsb, tlscan, cn, zl, vt, vc, doomed, err, seen, pre, nclear, shape, mpc>>
 
 Ge6(f) == /\ Can(f) /\ pc[f] = "ge6" /\ gil = 0 /\ gil' = f
           /\ Goto(f, IF Variant = "nofree" THEN "rg1" ELSE "fz0")
-          /\ UNCHANGED <<calls, zlock, tss, tlsb, tlscan, ts, cn, zl, vt, vc, doomed, err, seen, pre, nclear, mpc>>
+          /\ UNCHANGED <<calls, zlock, tss, tlsb, tlscan, ts, cn, zl, vt, vc, doomed, err, seen, pre, nclear, shape, mpc>>
 
 \* ------------------------------------------------------------------ thread_canary_free_zombies
 Fz0(f) == /\ Can(f) /\ pc[f] = "fz0" /\ Goto(f, IF zl = <<>> THEN "rg1" ELSE "fz1")
-          /\ UNCHANGED <<calls, gil, zlock, tss, tlsb, tlscan, ts, cn, zl, vt, vc, doomed, err, seen, pre, nclear, mpc>>
+          /\ UNCHANGED <<calls, gil, zlock, tss, tlsb, tlscan, ts, cn, zl, vt, vc, doomed, err, seen, pre, nclear, shape, mpc>>
 
 Fz1(f) == /\ Can(f) /\ pc[f] = "fz1" /\ zlock = 0 /\ zlock' = f /\ Goto(f, "fz2")
-          /\ UNCHANGED <<calls, gil, tss, tlsb, tlscan, ts, cn, zl, vt, vc, doomed, err, seen, pre, nclear, mpc>>
+          /\ UNCHANGED <<calls, gil, tss, tlsb, tlscan, ts, cn, zl, vt, vc, doomed, err, seen, pre, nclear, shape, mpc>>
 
 Fz2(f) == /\ Can(f) /\ pc[f] = "fz2"
           /\ IF zl = <<>> THEN /\ zlock' = 0 /\ Goto(f, "rg1")
-                               /\ UNCHANGED <<calls, gil, tss, tlsb, tlscan, ts, cn, zl, vt, vc, doomed, err, seen, pre, nclear, mpc>>
+                               /\ UNCHANGED <<calls, gil, tss, tlsb, tlscan, ts, cn, zl, vt, vc, doomed, err, seen, pre, nclear, shape, mpc>>
              ELSE LET ob == Head(zl) IN
                   IF cn[ob].st # "alive" THEN Fail("free_zombies: zombie list holds a freed canary")
                   ELSE /\ zl' = Tail(zl) /\ cn' = [cn EXCEPT ![ob].inz = FALSE]
                        /\ vt' = [vt EXCEPT ![f] = ob] /\ zlock' = 0 /\ Goto(f, "fz3")
-                       /\ UNCHANGED <<calls, gil, tss, tlsb, tlscan, ts, vc, doomed, err, seen, pre, nclear, mpc>>
+                       /\ UNCHANGED <<calls, gil, tss, tlsb, tlscan, ts, vc, doomed, err, seen, pre, nclear, shape, mpc>>
 
 \* PyThreadState_Clear(tstate): drops tstate->dict, hence the canary it holds
 Fz3(f) == /\ Can(f) /\ pc[f] = "fz3"
@@ -141,12 +144,12 @@ Fz3(f) == /\ Can(f) /\ pc[f] = "fz3"
              ELSE /\ ts' = [ts EXCEPT ![i].st = "cleared", ![i].dict = 0, ![i].loc = <<>>]
                   /\ vc' = [vc EXCEPT ![f] = ts[i].dict]
                   /\ Goto(f, IF ts[i].dict = 0 THEN "fz4" ELSE "cd1")
-                  /\ UNCHANGED <<calls, gil, zlock, tss, tlsb, tlscan, cn, zl, vt, doomed, err, seen, pre, nclear, mpc>>
+                  /\ UNCHANGED <<calls, gil, zlock, tss, tlsb, tlscan, cn, zl, vt, doomed, err, seen, pre, nclear, shape, mpc>>
 
 \* thread_canary_dealloc by executor p (a foreign thread inside free_zombies, or Main)
 Cd1(p) == /\ CanP(p) /\ (IF p = Main THEN mpc = "cd1" ELSE pc[p] = "cd1") /\ zlock = 0 /\ zlock' = p
           /\ IF p = Main THEN mpc' = "cd2" /\ UNCHANGED pc ELSE Goto(p, "cd2") /\ UNCHANGED mpc
-          /\ UNCHANGED <<calls, gil, tss, tlsb, tlscan, ts, cn, zl, vt, vc, doomed, err, seen, pre, nclear>>
+          /\ UNCHANGED <<calls, gil, tss, tlsb, tlscan, ts, cn, zl, vt, vc, doomed, err, seen, pre, nclear, shape>>
 
 Cd2(p) == /\ CanP(p) /\ (IF p = Main THEN mpc = "cd2" ELSE pc[p] = "cd2")
           /\ LET c == vc[p] IN
@@ -158,17 +161,17 @@ Cd2(p) == /\ CanP(p) /\ (IF p = Main THEN mpc = "cd2" ELSE pc[p] = "cd2")
                   /\ cn' = [cn EXCEPT ![c] = [st |-> "freed", tls |-> 0, inz |-> FALSE]]
                   /\ zlock' = 0
                   /\ IF p = Main THEN mpc' = "mdel" /\ UNCHANGED pc ELSE Goto(p, "fz4") /\ UNCHANGED mpc
-                  /\ UNCHANGED <<calls, gil, tss, tlsb, ts, vt, vc, doomed, err, seen, pre, nclear>>
+                  /\ UNCHANGED <<calls, gil, tss, tlsb, ts, vt, vc, doomed, err, seen, pre, nclear, shape>>
 
 Fz4(f) == /\ Can(f) /\ pc[f] = "fz4"
           /\ IF ts[vt[f]].st \notin {"alive", "cleared"} THEN Fail("PyThreadState_Delete twice")
              ELSE /\ ts' = [ts EXCEPT ![vt[f]].st = "deleted"] /\ Goto(f, "fz1")
-                  /\ UNCHANGED <<calls, gil, zlock, tss, tlsb, tlscan, cn, zl, vt, vc, doomed, err, seen, pre, nclear, mpc>>
+                  /\ UNCHANGED <<calls, gil, zlock, tss, tlsb, tlscan, cn, zl, vt, vc, doomed, err, seen, pre, nclear, shape, mpc>>
 
 \* ------------------------------------------------------------------ thread_canary_register, continued
 Rg1(f) == /\ Can(f) /\ pc[f] = "rg1"
           /\ tlsb' = [tlsb EXCEPT ![f] = "alloc"] /\ Goto(f, "rg2")
-          /\ UNCHANGED <<calls, gil, zlock, tss, tlscan, ts, cn, zl, vt, vc, doomed, err, seen, pre, nclear, mpc>>
+          /\ UNCHANGED <<calls, gil, zlock, tss, tlscan, ts, cn, zl, vt, vc, doomed, err, seen, pre, nclear, shape, mpc>>
 
 Rg2(f) == /\ Can(f) /\ pc[f] = "rg2"
           /\ LET i == tss[f] IN
@@ -177,7 +180,7 @@ Rg2(f) == /\ Can(f) /\ pc[f] = "rg2"
                                    ![i].cnt = IF Variant = "nokeepalive" THEN @ ELSE @ + 1]
                /\ tlscan' = [tlscan EXCEPT ![f] = i]
           /\ Goto(f, "body")
-          /\ UNCHANGED <<calls, gil, zlock, tss, tlsb, zl, vt, vc, doomed, err, seen, pre, nclear, mpc>>
+          /\ UNCHANGED <<calls, gil, zlock, tss, tlsb, zl, vt, vc, doomed, err, seen, pre, nclear, shape, mpc>>
 
 \* ------------------------------------------------------------------ the callback body
 \* body: reads thread-local data; bodyw: holds the GIL; bodyz: blocked with the GIL released (any
@@ -185,17 +188,17 @@ Rg2(f) == /\ Can(f) /\ pc[f] = "rg2"
 Body(f) == /\ Can(f) /\ pc[f] = "body"
            /\ IF ts[tss[f]].st # "alive" \/ gil # f THEN Fail("callback body without a valid current tstate")
               ELSE /\ seen' = [seen EXCEPT ![f] = ts[tss[f]].loc] /\ Goto(f, "bodyw")
-                   /\ UNCHANGED <<calls, gil, zlock, tss, tlsb, tlscan, ts, cn, zl, vt, vc, doomed, err, pre, nclear, mpc>>
+                   /\ UNCHANGED <<calls, gil, zlock, tss, tlsb, tlscan, ts, cn, zl, vt, vc, doomed, err, pre, nclear, shape, mpc>>
 
 BodyRel(f) == /\ Can(f) /\ pc[f] = "bodyw" /\ gil' = 0 /\ Goto(f, "bodyz")
-              /\ UNCHANGED <<calls, zlock, tss, tlsb, tlscan, ts, cn, zl, vt, vc, doomed, err, seen, pre, nclear, mpc>>
+              /\ UNCHANGED <<calls, zlock, tss, tlsb, tlscan, ts, cn, zl, vt, vc, doomed, err, seen, pre, nclear, shape, mpc>>
 BodyAcq(f) == /\ Can(f) /\ pc[f] = "bodyz" /\ gil = 0 /\ gil' = f /\ Goto(f, "bodyx")
-              /\ UNCHANGED <<calls, zlock, tss, tlsb, tlscan, ts, cn, zl, vt, vc, doomed, err, seen, pre, nclear, mpc>>
+              /\ UNCHANGED <<calls, zlock, tss, tlsb, tlscan, ts, cn, zl, vt, vc, doomed, err, seen, pre, nclear, shape, mpc>>
 
 BodyW(f) == /\ Can(f) /\ (pc[f] = "bodyx" \/ (pc[f] = "bodyw" /\ ~Atomic))
             /\ IF ts[tss[f]].st # "alive" THEN Fail("callback body: tstate destroyed while the body was running")
                ELSE /\ ts' = [ts EXCEPT ![tss[f]].loc = <<calls[f] + 1>>] /\ Goto(f, "gr1")
-                    /\ UNCHANGED <<calls, gil, zlock, tss, tlsb, tlscan, cn, zl, vt, vc, doomed, err, seen, pre, nclear, mpc>>
+                    /\ UNCHANGED <<calls, gil, zlock, tss, tlsb, tlscan, cn, zl, vt, vc, doomed, err, seen, pre, nclear, shape, mpc>>
 
 \* ------------------------------------------------------------------ gil_release = PyGILState_Release
 Gr1(f) == /\ Can(f) /\ pc[f] = "gr1"
@@ -211,19 +214,19 @@ Gr1(f) == /\ Can(f) /\ pc[f] = "gr1"
                             /\ tlscan' = [tlscan EXCEPT ![f] = 0]
                             /\ tss' = [tss EXCEPT ![f] = 0]
                   /\ gil' = 0 /\ calls' = [calls EXCEPT ![f] = @ + 1] /\ Goto(f, "idle")
-                  /\ UNCHANGED <<zlock, tlsb, zl, vt, vc, doomed, err, seen, pre, nclear, mpc>>
+                  /\ UNCHANGED <<zlock, tlsb, zl, vt, vc, doomed, err, seen, pre, nclear, shape, mpc>>
 
 \* ------------------------------------------------------------------ thread exit
 Sh0(f) == /\ Can(f) /\ pc[f] = "idle"
           /\ Goto(f, IF tlsb[f] = "alloc" THEN (IF Variant = "nolock" THEN "sh2" ELSE "sh1") ELSE "done")
-          /\ UNCHANGED <<calls, gil, zlock, tss, tlsb, tlscan, ts, cn, zl, vt, vc, doomed, err, seen, pre, nclear, mpc>>
+          /\ UNCHANGED <<calls, gil, zlock, tss, tlsb, tlscan, ts, cn, zl, vt, vc, doomed, err, seen, pre, nclear, shape, mpc>>
 
 Sh1(f) == /\ Can(f) /\ pc[f] = "sh1" /\ zlock = 0 /\ zlock' = f /\ Goto(f, "sh2")
-          /\ UNCHANGED <<calls, gil, tss, tlsb, tlscan, ts, cn, zl, vt, vc, doomed, err, seen, pre, nclear, mpc>>
+          /\ UNCHANGED <<calls, gil, tss, tlsb, tlscan, ts, cn, zl, vt, vc, doomed, err, seen, pre, nclear, shape, mpc>>
 
 Sh2(f) == /\ Can(f) /\ pc[f] = "sh2"            \* read tls->local_thread_canary
           /\ vc' = [vc EXCEPT ![f] = tlscan[f]] /\ Goto(f, "sh3")
-          /\ UNCHANGED <<calls, gil, zlock, tss, tlsb, tlscan, ts, cn, zl, vt, doomed, err, seen, pre, nclear, mpc>>
+          /\ UNCHANGED <<calls, gil, zlock, tss, tlsb, tlscan, ts, cn, zl, vt, doomed, err, seen, pre, nclear, shape, mpc>>
 
 Sh3(f) == /\ Can(f) /\ pc[f] = "sh3"
           /\ LET c == vc[f] IN
@@ -234,13 +237,13 @@ Sh3(f) == /\ Can(f) /\ pc[f] = "sh3"
                   /\ zlock' = IF Variant = "nolock" THEN zlock ELSE 0
                   /\ tlsb' = [tlsb EXCEPT ![f] = "freed"]
                   /\ Goto(f, "done")
-                  /\ UNCHANGED <<calls, gil, tss, tlscan, ts, vt, vc, doomed, err, seen, pre, nclear, mpc>>
+                  /\ UNCHANGED <<calls, gil, tss, tlscan, ts, vt, vc, doomed, err, seen, pre, nclear, shape, mpc>>
 
 \* ------------------------------------------------------------------ a Python thread
 M0 == /\ CanM /\ mpc = "m0" /\ gil = 0 /\ gil' = Main /\ mpc' = "m1"
-         /\ UNCHANGED <<pc, calls, zlock, tss, tlsb, tlscan, ts, cn, zl, vt, vc, doomed, err, seen, pre, nclear>>
+         /\ UNCHANGED <<pc, calls, zlock, tss, tlsb, tlscan, ts, cn, zl, vt, vc, doomed, err, seen, pre, nclear, shape>>
 M1 == /\ CanM /\ mpc = "m1" /\ gil' = 0 /\ mpc' = "m0"
-         /\ UNCHANGED <<pc, calls, zlock, tss, tlsb, tlscan, ts, cn, zl, vt, vc, doomed, err, seen, pre, nclear>>
+         /\ UNCHANGED <<pc, calls, zlock, tss, tlsb, tlscan, ts, cn, zl, vt, vc, doomed, err, seen, pre, nclear, shape>>
 \* clear a thread state under cffi's feet (Py_Finalize, fork): its owner must not be in a callback
 Victims == {i \in TsIds : ts[i].st = "alive" /\ pc[Owner(i)] \in {"idle", "sh1", "sh2", "sh3", "done"}}
 MClear(i) == /\ CanM /\ mpc = "m1" /\ nclear < NClear /\ i \in Victims
@@ -250,11 +253,11 @@ MClear(i) == /\ CanM /\ mpc = "m1" /\ nclear < NClear /\ i \in Victims
              /\ ts' = [ts EXCEPT ![i].st = "cleared", ![i].dict = 0, ![i].loc = <<>>]
              /\ vc' = [vc EXCEPT ![Main] = ts[i].dict]
              /\ mpc' = IF ts[i].dict = 0 THEN "mdel" ELSE "cd1"
-             /\ UNCHANGED <<pc, calls, gil, zlock, tss, tlsb, tlscan, cn, zl, err, seen, pre>>
+             /\ UNCHANGED <<pc, calls, gil, zlock, tss, tlsb, tlscan, cn, zl, err, seen, pre, shape>>
 MDel == /\ CanM /\ mpc = "mdel"
            /\ IF ts[vt[Main]].st \notin {"alive", "cleared"} THEN Fail("PyThreadState_Delete twice (Main)")
               ELSE /\ ts' = [ts EXCEPT ![vt[Main]].st = "deleted"] /\ mpc' = "m1"
-                   /\ UNCHANGED <<pc, calls, gil, zlock, tss, tlsb, tlscan, cn, zl, vt, vc, doomed, err, seen, pre, nclear>>
+                   /\ UNCHANGED <<pc, calls, gil, zlock, tss, tlsb, tlscan, cn, zl, vt, vc, doomed, err, seen, pre, nclear, shape>>
 
 \* ------------------------------------------------------------------ next-state relation
 FStep(f) == \/ Spawn(f) \/ Ge1(f) \/ Ge2(f) \/ Ge3(f) \/ Ge5(f) \/ Ge6(f)
